@@ -223,6 +223,13 @@ def reward_spec(r, names):
     raise ValueError(r)
 
 
+def _custom_reward(R, j):
+    """user-defined rewards from ONE factory (all their functions share a qualified name and differ only in what they close
+    over): the time spent with exactly j lineages, through CustomReward"""
+    return R.CustomReward(lambda state_space: R.LineageReward(j)._get(state_space),
+                          supports=lambda cls: R.LineageReward(j).supports(cls) if hasattr(R.LineageReward(j), 'supports') else True)
+
+
 def make_reward(pg, r):
     t = r[0]
     R = pg.rewards if hasattr(pg, 'rewards') else pg
@@ -237,6 +244,7 @@ def make_reward(pg, r):
     if t == 'locus': return R.LocusReward(r[1])
     if t == 'tblloc': return R.TotalBranchLengthLocusReward(r[1])
     if t == 'deme': return R.DemeReward(r[1])
+    if t == 'custom': return _custom_reward(R, r[1])
     if t == 'P': return R.ProductReward([make_reward(pg, x) for x in r[1]])
     if t == 'S': return R.SumReward([make_reward(pg, x) for x in r[1]])
     if t == 'C': return R.CombinedReward([make_reward(pg, x) for x in r[1]])
